@@ -3,6 +3,7 @@
 mod bc;
 mod c07;
 mod ext;
+mod hnd;
 mod meta;
 mod mgr;
 mod util;
@@ -22,6 +23,7 @@ fn main() {
         "resp" => meta::run_resp(&lines),
         "ext" => ext::run(&lines),
         "mgr" => mgr::run(&lines),
+        "hnd" => hnd::run(&lines),
         other => {
             eprintln!("unknown property {}", other);
             std::process::exit(2);
